@@ -39,11 +39,12 @@ type Sched struct {
 	// Watchdog is the no-progress timeout after which Run gives up (inconclusive).
 	Watchdog time.Duration
 	disabled bool
+	wg       sync.WaitGroup
 }
 
 // New creates a scheduler.
 func New() *Sched {
-	return &Sched{live: map[int]bool{}, done: map[int]bool{}, current: map[uint64]int{}, Watchdog: 3 * time.Second}
+	return &Sched{live: map[int]bool{}, done: map[int]bool{}, current: map[uint64]int{}, Watchdog: 20 * time.Second}
 }
 
 func goid() uint64 {
@@ -87,7 +88,9 @@ func (s *Sched) Go(task int, fn func()) {
 	s.live[task] = true
 	s.mu.Unlock()
 	ready := make(chan struct{})
+	s.wg.Add(1)
 	go func() {
+		defer s.wg.Done()
 		g := goid()
 		s.mu.Lock()
 		s.current[g] = task
@@ -224,4 +227,18 @@ func orderByTask(ps []*parked) []int {
 		}
 	}
 	return idx
+}
+
+// Wait blocks until every task started with Go has returned (call after Disable, also on
+// the inconclusive path: a task that is still running would issue its late operations
+// into the next case). Returns false if they did not finish within the timeout.
+func (s *Sched) Wait(timeout time.Duration) bool {
+	done := make(chan struct{})
+	go func() { s.wg.Wait(); close(done) }()
+	select {
+	case <-done:
+		return true
+	case <-time.After(timeout):
+		return false
+	}
 }
